@@ -1,9 +1,53 @@
 (* C14 — property theorems (statements only; proofs live in Proofs.v / GenEq.v). *)
 From Coq Require Import ZArith QArith Bool.
-Require Import QV.common.Ctl QV.C14.Gen_numeric QV.C14.Model QV.C14.GenEq.
+Require Import QV.common.Ctl QV.C14.Gen_numeric QV.C14.Model QV.C14.GenEq QV.C14.Proofs.
 
-(* the kernel that is re-translated from /repo on every run computes the clean model *)
+(* (1) the kernel re-translated from /repo on every run computes the clean model, for every fuel and input *)
 Theorem C14_translated_kernel_is_model : forall fuel alpha_num d_num den,
   out_of (gen_approximate_int fuel alpha_num d_num den) = approx_int fuel alpha_num d_num den.
 Proof. exact gen_approximate_int_eq. Qed.
 Print Assumptions C14_translated_kernel_is_model.
+
+(* (2) the translated kernel terminates within `den` iterations and returns the fraction with the smallest
+       denominator strictly inside ((alpha - d)/den, (alpha + d)/den), for all 1 <= d <= alpha < den *)
+Theorem C14_kernel_terminates_best : forall A D N, (1 <= D)%Z -> (D <= A)%Z -> (A < N)%Z ->
+  exists p q, out_of (gen_approximate_int (Z.to_nat N) A D N) = ORet (p, q) /\
+    (1 <= q)%Z /\ (q * (A - D) < p * N /\ p * N < q * (A + D))%Z /\
+    forall p' q', (1 <= q')%Z -> (q' * (A - D) < p' * N /\ p' * N < q' * (A + D))%Z -> (q <= q')%Z.
+Proof. exact gen_kernel_best. Qed.
+Print Assumptions C14_kernel_terminates_best.
+
+(* (3) approximate_rational (model; binary fuel = common denominator): for every rational x = xp/xq and every
+       tolerance e = dp/dq > 0 it returns, without running out of fuel, the fraction of smallest denominator strictly
+       inside (x - e, x + e) *)
+Theorem C14_approximate_rational_minimal : forall (xp : Z) (xq : positive) (dp : Z) (dq : positive),
+  (0 < dp)%Z ->
+  exists (p : Z) (q : positive),
+    approximate_rational xp (Zpos xq) dp (Zpos dq) = ORet (p, Zpos q) /\
+    in_open (xp # xq) (dp # dq) (p # q) /\
+    forall (p' : Z) (q' : positive), in_open (xp # xq) (dp # dq) (p' # q') -> (q <= q')%positive.
+Proof. exact approximate_rational_best_Q. Qed.
+Print Assumptions C14_approximate_rational_minimal.
+
+(* (4) operator table of the model: mixed-type use is symmetric, floor-division and modulo are the Euclidean pair *)
+Theorem C14_mixed_add_symmetric : forall t o r r',
+  time_binop Add t o false = Some r -> time_binop Add t o true = Some r' -> r == r'.
+Proof. exact time_add_sym. Qed.
+Print Assumptions C14_mixed_add_symmetric.
+
+Theorem C14_mixed_mul_symmetric : forall t o r r',
+  time_binop Mul t o false = Some r -> time_binop Mul t o true = Some r' -> r == r'.
+Proof. exact time_mul_sym. Qed.
+Print Assumptions C14_mixed_mul_symmetric.
+
+Theorem C14_mixed_cmp_mirror : forall t o,
+  time_cmp CLt t o false = time_cmp CGt t o true /\ time_cmp CLe t o false = time_cmp CGe t o true.
+Proof. exact time_cmp_mirror. Qed.
+Print Assumptions C14_mixed_cmp_mirror.
+
+Theorem C14_floordiv_mod : forall a b, 0 < b ->
+  a == inject_Z (Qfloordiv a b) * b + Qmod a b /\ 0 <= Qmod a b /\ Qmod a b < b.
+Proof.
+  intros a b Hb. split; [apply divmod_identity; intro E; rewrite E in Hb; discriminate | apply mod_range; exact Hb].
+Qed.
+Print Assumptions C14_floordiv_mod.
